@@ -264,3 +264,75 @@ func Same(v Val, e entities.InfoElementWithValue) bool {
 	}
 	return false
 }
+
+// kindForType maps a data type to a representative kind (value shape).
+func kindForType(t entities.IEDataType, l uint16) (Kind, bool) {
+	switch t {
+	case entities.Unsigned8:
+		return KU8, true
+	case entities.Unsigned16:
+		return KU16, true
+	case entities.Unsigned32:
+		return KU32, true
+	case entities.Unsigned64:
+		return KU64, true
+	case entities.Signed8:
+		return KS8, true
+	case entities.Signed16:
+		return KS16, true
+	case entities.Signed32:
+		return KS32, true
+	case entities.Signed64:
+		return KS64, true
+	case entities.Float32:
+		return KF32, true
+	case entities.Float64:
+		return KF64, true
+	case entities.Boolean:
+		return KBool, true
+	case entities.MacAddress:
+		return KMac, true
+	case entities.DateTimeSeconds:
+		return KDTS, true
+	case entities.DateTimeMilliseconds:
+		return KDTMS, true
+	case entities.Ipv4Address:
+		return KIPv4, true
+	case entities.Ipv6Address:
+		return KIPv6, true
+	case entities.String:
+		return KString, true
+	case entities.OctetArray:
+		if l == entities.VariableLength {
+			return KOctetVar, true
+		}
+		return KOctetFix, true
+	}
+	return 0, false
+}
+
+// DrawForIE draws a symbolic value shaped for an arbitrary registry element.
+func DrawForIE(ie *entities.InfoElement, tag string) (Val, bool) {
+	k, ok := kindForType(ie.DataType, ie.Len)
+	if !ok {
+		return Val{}, false
+	}
+	if k == KOctetFix {
+		v := Val{K: k}
+		v.Raw = sx.Bytes(tag, int(ie.Len))
+		v.Enc = v.Raw
+		return v, true
+	}
+	n := 0
+	if k.IsVar() {
+		n = []int{0, 3, 255}[sx.Choose("len", 3)]
+	}
+	return Draw(k, tag, n), true
+}
+
+// ElementForIE builds the element-with-value for ie from a value drawn by DrawForIE.
+func ElementForIE(ie *entities.InfoElement, v Val) entities.InfoElementWithValue {
+	e := Element(v)
+	e.AddInfoElement(ie)
+	return e
+}
